@@ -4,7 +4,7 @@ copies an agent's confirmed seeded change into /verif/seeded/<ID>/ (patch.diff, 
 import json, os, shutil, sys
 pid, caught, missed, note = sys.argv[1], sys.argv[2], sys.argv[3] == "1", sys.argv[4]
 name = sys.argv[5] if len(sys.argv) > 5 else pid
-src = "/tmp/seeded_%s" % pid
+src = "/tmp/seeded%s_%s" % (os.environ.get("SEED_ROUND", ""), pid)
 dst = "/verif/seeded/%s" % name
 os.makedirs(dst, exist_ok=True)
 shutil.copy(os.path.join(src, "patch.diff"), os.path.join(dst, "patch.diff"))
